@@ -95,6 +95,11 @@ func loadAll(repo, verifDir string, want map[string]bool) (*Loaded, error) {
 			pkgSet[td.Pkg] = true
 		}
 	}
+	for _, gi := range db.GInvs {
+		if hasProp(gi.Props, want) {
+			pkgSet[gi.Pkg] = true
+		}
+	}
 	var patterns []string
 	for p := range pkgSet {
 		patterns = append(patterns, p)
@@ -192,6 +197,15 @@ func runVerification(o RunOpts) (*RunResult, error) {
 			continue
 		}
 		rr.Results = append(rr.Results, VerifyTable(ld.GoPkgs, td))
+	}
+	for _, gi := range db.GInvs {
+		if !hasProp(gi.Props, o.Props) || ld.Prog == nil {
+			continue
+		}
+		if o.FnRe != nil && !o.FnRe.MatchString("ginv "+gi.Src) {
+			continue
+		}
+		rr.Results = append(rr.Results, VerifyGInvScan(ld.Prog, gi))
 	}
 	for _, name := range db.Order {
 		fc := db.Funcs[name]
